@@ -53,6 +53,17 @@ pub fn run_hostile(a: &Args) {
                 threads.push(ThreadSpec { kind: Kind::NullSp, sp_off: 0, pages: 2, name: None, at: None });
             }
             2 => { // corrupted ELF images mapped executable
+                {   // a position-independent copy of the small fixture whose dynamic array is hostile at a boundary:
+                    // DT_SONAME offset equal to / one below / one above the string-table size, or DT_STRSZ zero
+                    let mut img = crate::tiny::TINY_ELF.to_vec();
+                    for i in 0..3 { let o = 0x40 + 56 * i; let off: [u8; 8] = img[o + 8..o + 16].try_into().unwrap(); img[o + 16..o + 24].copy_from_slice(&off); img[o + 24..o + 32].copy_from_slice(&off); }
+                    let (slot, v) = *rng.pick(&[(0x2bd + 8, 0xdu64), (0x2bd + 8, 0xc), (0x2bd + 8, 0xe), (0x2bd + 40, 0), (0x2bd + 8, u64::MAX)]);
+                    let (slot, v) = if case < 6 { (0x2bd + 8, 0xd) } else { (slot, v) };
+                    img[slot..slot + 8].copy_from_slice(&v.to_le_bytes());
+                    let p = format!("{absdir}/c02-{}-{case}-dyn.so", std::process::id());
+                    let _ = std::fs::write(&p, &img);
+                    let hex: String = p.bytes().map(|b| format!("{b:02x}")).collect(); lines.push(format!("filex {hex} 0 1 r-x"));
+                }
                 for j in 0..3 {
                     let mut img = synth_so(&(0..64).map(|_| rng.next() as u8).collect::<Vec<u8>>(), Some(&[7u8; 20]), Some("libc02.so"));
                     for _ in 0..rng.range(1, 4) { let w = *rng.pick(&[1usize, 2, 4, 8]); let off = (rng.below(img.len() as u64 - 8) as usize / w) * w; let v = *rng.pick(&[0u64, 1, u64::MAX, u64::MAX - 7, 0x7fff_ffff_ffff_ffff, img.len() as u64, 0x1000]); img[off..off + w].copy_from_slice(&v.to_le_bytes()[..w]); }
@@ -112,6 +123,7 @@ pub fn run_hostile(a: &Args) {
         });
         unsafe { libc::kill(target.pid, libc::SIGCONT); }
         drop(k2);
+        let _ = std::fs::remove_file(format!("{absdir}/c02-{}-{case}-dyn.so", std::process::id()));
         for j in 0..3 { for suf in ["1", "2é3", "1.2.3é4", "x"] { let _ = std::fs::remove_file(format!("{absdir}/c02-{}-{case}-{j}.so.{suf}", std::process::id())); } }
         let mut l = Line::new("const"); l.u(case).u(0);
         let mut res = Line::bare();
